@@ -425,4 +425,6 @@ def run(ctx):
                        'the LAMMPS style table strings are parsed by an independent grammar and typed by dimension and SI magnitude; set/get are inverse for the same factor; '
                        'the reduction half of parse() is extracted and compared with ordinary precedence on all operator patterns up to four operators; tokenizer structure; model keys. '
                        'Not decided: floating-point round-trip identity, random working-unit seeds.')
-    ctx.run_rules([working_units, style_tables, inverse_pair, precedence, model_keys, derived_state])
+    from .. import lints
+    ctx.run_rules([working_units, style_tables, inverse_pair, precedence, model_keys, derived_state,
+                   lambda c: lints.fresh_results(c, 'DERIVED-STATE', UC, floor=9, what='a value computed from the working units in force (a memoised parse() would outlive reset_units)')])
